@@ -1,5 +1,7 @@
 #include "common.hpp"
 
+#include <setjmp.h>
+
 #include <cmath>
 #include <cstdlib>
 #include <cxxabi.h>
@@ -266,6 +268,11 @@ namespace vh {
         if (system(cmd) != 0) {}
     }
 
+    // a fault inside a workload's dump hook (it reads runtime state of a run that already failed)
+    // must not cost the classification of the failure that is being reported
+    static sigjmp_buf g_dump_jmp;
+    static volatile bool g_in_dump = false;
+
     static void on_sim_fail(char const* cls, char const* msg)
     {
         if (g_reporting) _exit(4);
@@ -279,8 +286,19 @@ namespace vh {
         m.append(buf, n);
         if (g_dump_hook)
         {
-            m += " | ";
-            m += g_dump_hook();
+            if (sigsetjmp(g_dump_jmp, 1) == 0)
+            {
+                g_in_dump = true;
+                std::string d = g_dump_hook();
+                g_in_dump = false;
+                m += " | ";
+                m += d;
+            }
+            else
+            {
+                g_in_dump = false;
+                m += " | (state dump failed)";
+            }
         }
         emit_result(cls, cls, m);
         _exit(3);
@@ -288,6 +306,7 @@ namespace vh {
 
     static void on_signal(int sig, siginfo_t* si, void*)
     {
+        if (g_in_dump) siglongjmp(g_dump_jmp, 1);
         if (g_reporting) _exit(4);
         g_reporting = true;
         if (g_gdb_on_fail) gdb_dump();
